@@ -253,3 +253,13 @@ Proof.
   change (map (fun r : entry * Z * backend_answer => snd (fst r)) reqs) with (map req_time reqs).
   rewrite <- calls_decisions. apply bucket_window; assumption.
 Qed.
+
+(* the order of the two calls: when the backend is asked, the limiter has already been charged for
+   this attempt — the state the backend would see if it looked is the state after Allow() *)
+Lemma limiter_first c s e t a :
+  backend_called (snd (login_step c s e t a)) = true ->
+  T (fst (login_step c s e t a)) = advance c s t - C c /\ last (fst (login_step c s e t a)) = t.
+Proof.
+  unfold login_step, allow.
+  destruct ((C c <=? B c) && (- p c <? advance c s t - C c)); cbn [fst snd backend_called T last]; [auto|discriminate].
+Qed.
